@@ -286,6 +286,48 @@ def Server.receive (s : Server) (src : Nat) : Payload → Server × Option (Nat 
     -- no branch of the dispatcher matches: the default result `{"status_code": 500, "data": []}` is sent back
     if !s.canAct then (s, none) else (s, some (500, none))
 
+/-! ### the payload as `receive` sees it, key by key (vocabulary of the translated dispatcher, Gen/DatabaseTr.lean) -/
+
+/-- `payload["type"]` when it is truthy -/
+inductive PType | connectRequest | disconnect | sql | other
+deriving DecidableEq, Repr
+
+/-- What can arrive at `DatabaseService.receive`, as far as the dispatcher looks at it. -/
+structure Raw where
+  isDict : Bool := true
+  /-- `payload.get("type")`: `none` = key absent or value falsy -/
+  type : Option PType := none
+  /-- key `"connection_id"`: `none` = absent, `some none` = present but not an id the server ever issued (also `None`),
+  `some (some k)` = the id issued k-th -/
+  connId : Option (Option Nat) := none
+  /-- `payload.get("password")` -/
+  password : Option Nat := none
+  /-- key `"sql"`: `none` = absent -/
+  sql : Option Sql := none
+  /-- key `"uuid"` present -/
+  uuid : Bool := false
+deriving DecidableEq, Repr
+
+/-- what a call of `receive` did: returned `value` after passing `sent` to `self.send` (`none`: nothing was sent), or raised
+(`KeyError` on a missing key) -/
+inductive RecvOut
+  | ret (sent : Option (Nat × Option Nat)) (value : Bool)
+  | raised
+deriving DecidableEq, Repr
+
+/-- `self.connections[connection_id]["ip_address"]`: the originating address recorded for an id -/
+def Server.ownerOf (s : Server) (cid : Option Nat) : Option Nat :=
+  cid.bind (fun i => (s.conns.find? (fun c => c.id == i)).map (·.owner))
+
+/-- the well-formed payloads of the model, key by key -/
+def Payload.raw : Payload → Raw
+  | .connect pw => { type := some .connectRequest, password := pw }
+  | .sql cid q => { type := some .sql, connId := some cid, sql := some q, uuid := true }
+  | .disconnect cid => { type := some .disconnect, connId := some cid }
+  | .junk .notDict => { isDict := false }
+  | .junk .noType => { connId := some none, sql := some .select }
+  | .junk .unknownType => { type := some .other }
+
 /-! ### backup and restore (database_service.py + the FTP pair) -/
 
 def Backup.serves (b : Backup) : Bool := b.node.isOn && b.ftps == .running
